@@ -66,7 +66,8 @@ pub fn check_run(cx: &Cx, run: &RoleRun, am: &crate::cmp::AttrMap, entry: &(Stri
         let ty = match (&t, ty) { (syn::Type::Reference(r), _) if matches!(&*r.elem, syn::Type::Slice(_)) => Ty::from_syn(&r.elem), (_, x) => x };
         roots.insert(n, ty);
     }
-    let cl = Classifier { ix: &cx.ix, roots, am, entry_this: entry.0.clone(), entry_common: entry.1.clone() };
+    let _ = entry;
+    let cl = Classifier { ix: &cx.ix, roots, am, entry_this: "bounds_this".into(), entry_common: "bounds_common".into() };
     let kind = role_kind(run);
     let is_enum = run.role.item_kind == "enum";
     for p in &run.paths {
@@ -228,6 +229,7 @@ pub fn check_run(cx: &Cx, run: &RoleRun, am: &crate::cmp::AttrMap, entry: &(Stri
 fn run_bounds(cx: &Cx, rep: &mut Report, rules: &[&str]) {
     let mut scratch = Report::new("x", "quick", &cx.verif);
     let am = attr_map(&cx.ix, &mut scratch);
+    if !cx.canon_problems.is_empty() { rep.fail("unanalysable", "naming", "canonical-names", &format!("same-typed fields could not be told apart: {}", cx.canon_problems.join("; ")), "item_type.rs", json!({})); }
     let entry = match entry_fields(&cx.ix) {
         Ok(e) => e,
         Err(e) => { rep.fail("unanalysable", "DeriveEntry", "entry-bounds-fields", &e, "item_type.rs", json!({})); return; }
